@@ -1,38 +1,63 @@
 """
-play machine - C42: PLAY emits the notes its music string specifies, whatever the schedule.
+play machine - C42: PLAY emits the notes its music string specifies, whatever the schedule and
+wherever the variables it refers to happen to live.
 
 One run = one Session (syntax 'advanced': one voice, no Tandy synchronisation balloons) and a
 history of
-    var    assign a string (X substring) or numeric (=var;) variable
+    var    assign a string (X substring) or numeric (=var;) variable: scalars and array elements
+    pad    define filler scalars first, so that the variables the music refers to come to lie at
+           other addresses; optionally so many that the low address byte of the next variable (or of
+           an existing array element) is a byte that means something in MML (blank, ';', '=', digits,
+           command letters, ...): the three bytes of a VARPTR$ reference are binary, not MML text
+    dim    DIM an array (a large one moves the arrays defined later to high addresses)
+    line   store REM lines of a given size (moves the whole variable area), then CLEAR
     play   PLAY <mml>  (foreground or background as the MML state says), optionally with a
-           Ctrl-Break scheduled `break_at` simulated seconds after the statement starts
+           Ctrl-Break scheduled `break_at` simulated seconds after the statement starts, or at the
+           `break_poll`-th event poll of the statement
+    stmt   a direct-mode statement that has nothing to do with music: STOP, END, ERROR n, PRINT, ...
     sleep  simulated time passes between statements (the queue drains, or does not)
     jump   host clock step (small backwards, larger forwards)
     reset  CLEAR (documented to reset the PLAY state and stop sound)
 on a simulated clock with seeded sleep(0) jitter. The audio queue is the recording queue of the
 World; tones are read from `world.audio.signals`.
+Modes (cfg['mode']): 'direct' - every statement is a direct-mode line; 'program' - the var/play/reset
+ops are lines of a stored program, each followed by a STOP; the program is RUN (its first line sets
+every PLAY state variable) and taken up again for each op with CONT (or GOTO <line>: after an error
+or a Break, and throughout when cfg['resume'] == 'goto'); the other ops, and play ops marked
+'direct', are direct-mode statements given while the program is stopped. cfg['session'] varies
+reserved_memory/max_files/max_reclen, which moves the variable area as a whole; cfg['hi'] is the high
+address byte aimed at (program mode tops up with REM lines).
 
 Oracles
   * reference MML interpreter (`RefPlayer`) -> list of (frequency, sounding time, silence);
     the AUDIO_TONE signals recorded during the statement must be exactly that list (silences
     coalesced on both sides, so the comparison does not depend on whether a gap is a separate
-    queue entry). The reference state (octave, L, T, MN/ML/MS, MF/MB) persists over statements.
+    queue entry). The reference state (octave, L, T, MN/ML/MS, MF/MB) persists over statements,
+    over Ctrl-Break, STOP, END, CONT, GOTO, errors and direct-mode statements; it is reset by CLEAR
+    only. After NEW / RUN / storing a line the machine does not say what the state is: it sets it.
     Frequencies: index i = octave*12 + semitone (N n: i = n-1), f = 440*2^((i-33)/12), i.e. the
     reading of the property under which every A is 440*2^k Hz.
   * malformed strings -> error 5 (tones before the malformed command may or may not have been
     emitted: only "a prefix of what the string specifies up to there" is required); well-formed
-    strings -> no error. After an error or a Break the PLAY state is not specified: the machine
-    then sets every state variable explicitly (`PLAY "MF O4 L4 T120 MN"`) on both sides.
+    strings -> no error. A statement that ended in an error or a Break may have been given up at any
+    command: the PLAY state afterwards is known only if no command of the string changes it;
+    otherwise the machine sets every state variable explicitly (`PLAY "MF O4 L4 T120 MN"`) on both
+    sides (also after a reported violation, so that consequences are not reported again).
   * bounded liveness, in simulated time, from a model of the sound queue (absolute end time of
     every queued tone/gap): a foreground PLAY returns no later than the end of the last note +
     a tick (+ poll jitter), and not before the last note has started; a background PLAY that
     leaves at most 16 entries waiting does not block, and never blocks beyond the instant at
     which 32 entries are left; a Break delivered during a blocked PLAY ends it within a tick.
     After a clock step with sound still queued these bounds are not judged until the queue is
-    known to be empty again (CLEAR or Break).
+    known to be empty again (CLEAR or Break); after STOP/END/an error in a program (back to direct
+    mode: sound may or may not go on) not until the sound queued then would have ended anyway.
 Not covered: Tandy/PCjr multi-voice PLAY and V; SOUND/NOISE/BEEP; shapes whose meaning GW-BASIC
 documentation leaves open (length 0, P0, E#/B#/C-/F-, blanks inside numbers, signed numbers,
-doubled or trailing semicolons, dots after N).
+doubled or trailing semicolons, dots after N); array elements referred to by name (=A%(1););
+strings that hold a pointer to an array element and also create a scalar by naming it (the pointer
+goes stale); VARPTR$ of a scalar that an earlier string may have created by naming it; strings of
+more than 255 bytes; CONT itself (a program that does not arrive at the next STOP is given up,
+probe 'program-lost').
 """
 
 import re
@@ -43,14 +68,17 @@ from .common import Run, execute, b, u, shash
 
 NAME = 'play'
 PROPS = ('C42',)
-RULE = ('one evaluation = one simulated session history of PLAY statements with simulated time, clock steps and '
-        'Ctrl-Break in between; distinct = distinct (op kind, foreground?, articulation, queue-length bucket at the '
-        'start, blocked?, break fired?, outcome, command kinds present) tuples; non-trivial = at least one statement '
-        'emitted tones that were compared with the reference interpreter')
+RULE = ('one evaluation = one simulated session history (direct mode, or a stored program stopped and continued '
+        'between statements) of variable placements and PLAY statements with simulated time, clock steps, Ctrl-Break, '
+        'STOP/END/errors in between; distinct = distinct (op kind, foreground?, articulation, queue-length bucket at '
+        'the start, blocked?, break fired?, outcome, command kinds present, in program?, what the PLAY state was '
+        'carried over) tuples; non-trivial = at least one statement emitted tones that were compared with the '
+        'reference interpreter')
 REAL = ['pcbasic.basic (whole package)', 'pcbasic.basic.sound (Sound.play_, emit_tone, TimedQueue)',
-        'pcbasic.basic.mlparser', 'pcbasic.basic.eventcycle (wait loop, Break)']
+        'pcbasic.basic.mlparser', 'pcbasic.basic.eventcycle (wait loop, Break)',
+        'pcbasic.basic.memory (scalars, arrays, VARPTR$ dereference)', 'pcbasic.basic.interpreter (Break, STOP, CONT)']
 STUB = ['wall clock (simulated: datetime.now, time.sleep)', 'audio back end (recording queue)',
-        'keyboard (Ctrl-Break signal injected at a simulated time)']
+        'keyboard (Ctrl-Break signal injected at a simulated time or at a chosen poll)']
 ASSUMPTIONS = [
     'syntax=advanced only (single voice)',
     'note index i = octave*12 + semitone = N-1 with f = 440*2^((i-33)/12)',
@@ -422,7 +450,11 @@ def _pick_byte(rng, lowest=0, highest=255):
     return 0x20
 
 
-def _mml(rng, n, speed, names, p_ref=0.10, p_ptr=0.3):
+RANGES = {'L': (1, 64), 'T': (32, 255), 'O': (0, 6), 'N': (0, 84)}
+
+
+def _mml(rng, n, speed, names, p_ref=0.10, p_ptr=0.3, numbers=None):
+    """`numbers`: what the numeric variables hold, to pick commands that accept the value (mostly)."""
     toks = []
     for _ in range(n):
         r = rng.random()
@@ -433,6 +465,9 @@ def _mml(rng, n, speed, names, p_ref=0.10, p_ptr=0.3):
                 toks.append('X' + VP0 + nm + VP1 if ptr else 'X' + nm + ';')
             else:
                 cmd = rng.choice('LTON')
+                fits = [c for c in 'LTON' if numbers and nm in numbers and RANGES[c][0] <= numbers[nm] <= RANGES[c][1]]
+                if fits and rng.random() < 0.85:
+                    cmd = rng.choice(fits)
                 toks.append(cmd + '=' + VP0 + nm + VP1 if ptr else cmd + '=' + nm + ';')
         else:
             toks.append(_token(rng, speed))
@@ -477,6 +512,7 @@ def gen(rng, tier, prop):
     mode = 'program' if rng.random() < 0.3 else 'direct'
     ops = []
     names = []          # names the strings may refer to (they may have been CLEARed since)
+    numbers = {}        # last value given to a numeric variable
     defined = set()     # names assigned since the last CLEAR
     arrays = set()
     serial = [0]
@@ -501,11 +537,12 @@ def gen(rng, tier, prop):
             if nm in STRINGS:
                 inner = [x for x in names if x in STRINGS and STRINGS.index(x) > STRINGS.index(nm)][:1]
                 inner += [x for x in names if x in NUMBERS][:1]
-            val = _mml(rng, rng.randint(1, 24), speed, inner, 0.10, 0.0)
+            val = _mml(rng, rng.randint(1, 24), speed, inner, 0.10, 0.0, numbers)
             if rng.random() < 0.1:
                 val += rng.choice(MALFORMED)[0]
         else:
             val = rng.choice(NUMVALUES)
+            numbers[nm] = val
         if nm not in names:
             names.append(nm)
         defined.add(nm)
@@ -549,7 +586,7 @@ def gen(rng, tier, prop):
                 # move the (existing) array
                 ops.append(pad(nm))
         elif r < 0.70:
-            mml = _mml(rng, rng.randint(1, 30 if rng.random() < 0.8 else 60), speed, names, p_ref, p_ptr)
+            mml = _mml(rng, rng.randint(1, 30 if rng.random() < 0.8 else 60), speed, names, p_ref, p_ptr, numbers)
             if rng.random() < 0.3:
                 mml = rng.choice(['MB', 'MB', 'MF', 'MBML', 'MBT255L64']) + mml
             op = {'op': 'play', 'mml': mml}
@@ -583,6 +620,8 @@ def gen(rng, tier, prop):
             ops.append({'op': 'reset'})
             defined.clear()
             arrays.clear()
+            for nm in numbers:
+                numbers[nm] = 0
     session = {'syntax': 'advanced'}
     cfg = {
         'world': {'sleep0_us': rng.choice([0, 1, 50, 50, 500, 5000]), 'start_us': K.DEFAULT_START_US + rng.choice([0, 123456, 86399999999 - 36000000000])},
@@ -591,6 +630,8 @@ def gen(rng, tier, prop):
     }
     if mode == 'program':
         cfg['rem'] = rng.choice([0, 0, rng.randint(0, 245)])
+        # how the stopped program is taken up again: CONT (GOTO <line> after an error or a Break), or always GOTO <line>
+        cfg['resume'] = rng.choice(['cont', 'cont', 'goto'])
     # where the variable area starts: the page (high address byte) is steered through the session's
     # memory options, and topped up with REM lines in program mode
     r = rng.random()
@@ -784,9 +825,16 @@ def _body(run):
             """Execute the statement of op i: directly, or by continuing the stored program up to its STOP."""
             if i not in lineno:
                 return direct(text, poll_cap), False
-            r = d.exec(b'CONT' if cont_ok[0] else b'GOTO %d' % lineno[i], poll_cap=poll_cap)
+            r = d.exec(b'CONT' if cont_ok[0] and use_cont else b'GOTO %d' % lineno[i], poll_cap=poll_cap)
             cont_ok[0] = (b'Break in %d\xff' % (lineno[i] + 1)) in r.out
             return r, True
+
+        def astray(r):
+            """The program neither arrived at the STOP after the statement nor reported an error."""
+            if cont_ok[0] or r.errs:
+                return False
+            run.probe('program-lost')
+            return True
 
         def resync():
             r = direct(b(('PLAY "%s"' % ref.defaults_string())), poll_cap=400000)
@@ -819,6 +867,7 @@ def _body(run):
             return nm in variables and nm not in doubtful
 
         lost = False
+        use_cont = cfg.get('resume', 'cont') == 'cont'
         if program:
             # store the program, then run its first lines, which set every PLAY state variable
             text = _program_text(ops, cfg.get('rem', 0))
@@ -852,6 +901,9 @@ def _body(run):
                 nm = op['name'].upper()
                 text, val = _assignment(op)
                 r, in_program = statement(i, text)
+                if in_program and astray(r):
+                    lost = True
+                    continue
                 if '(' in nm:
                     base, idx = nm[:-1].split('(')
                     if base not in arrays:
@@ -930,7 +982,10 @@ def _body(run):
                 w.jump_clock(op['s'])
                 run.state(k, op['s'] > 0, timing[0])
             elif k == 'reset':
-                r, _ = statement(i, b'CLEAR')
+                r, in_program = statement(i, b'CLEAR')
+                if in_program and astray(r):
+                    lost = True
+                    continue
                 forget_everything()
                 new_tones()
                 run.state(k, program)
@@ -1002,9 +1057,7 @@ def _body(run):
                           tuple(sorted(kinds))[:6], len(want) > 32, in_program, context[0])
                 if fired:
                     run.probe('break-fired-during-play')
-                if in_program and not fired and r.err is None and not cont_ok[0]:
-                    # the program did not arrive at the STOP that follows the statement
-                    run.probe('program-lost')
+                if in_program and not fired and astray(r):
                     lost = True
                     continue
                 # ---- outcome ---------------------------------------------------------------
@@ -1052,6 +1105,8 @@ def _body(run):
                     run.probe('unspecified-shape-statements')
                 else:
                     run.probe('malformed-statements' if err is not None else 'interrupted-statements')
+                    if err is not None:
+                        run.probe('malformed:' + err)
                     # whatever was emitted must be a prefix of what the string specifies before the error
                     pre = got[:-1] if got and got[-1][0] == 0 else got
                     if len(pre) > len(want) or any(not (close(g[0], x[0]) and close(g[1], x[1])) for g, x in zip(pre, want)):
